@@ -39,6 +39,11 @@ pub fn pool_dates(w: &World, seed: u64) -> Vec<i32> {
 
 pub fn pool_times(seed: u64) -> Vec<i64> {
     let mut v = vec![0, 1, 999_999, US_SEC, US_SEC + 1, US_MIN - 1, US_MIN, 30 * US_MIN - 1, 30 * US_MIN, US_HOUR, 11 * US_HOUR + 59 * US_MIN + 59 * US_SEC + 999_999, 12 * US_HOUR, 12 * US_HOUR + 1, 23 * US_HOUR + 59 * US_MIN + 30 * US_SEC, US_DAY - US_SEC - 1, US_DAY - US_SEC, US_DAY - 1];
+    for e in [8u32, 16, 24, 31, 32, 33, 36] {
+        for d in [-1i64, 0, 1] {
+            v.push((1i64 << e) + d);
+        }
+    }
     for k in 0..3u64 {
         v.push((splitmix(seed ^ (0x71AE + k)) % US_DAY as u64) as i64);
     }
@@ -55,6 +60,12 @@ pub fn pool_ts(w: &World, seed: u64) -> Vec<i64> {
             v.push(d as i64 * US_DAY + t);
         }
     }
+    for e in [31u32, 32, 33, 40, 48, 56] {
+        for d in [-1i64, 0, 1] {
+            v.push((1i64 << e) + d);
+            v.push(-(1i64 << e) + d);
+        }
+    }
     // magnitudes around 2^53 (where f64 stops being exact)
     for x in [(1i64 << 53) - 1, 1 << 53, (1 << 53) + 1, -(1 << 53) - 1] {
         v.push(x);
@@ -62,6 +73,7 @@ pub fn pool_ts(w: &World, seed: u64) -> Vec<i64> {
     for k in 0..4u64 {
         v.push(tmin + (splitmix(seed ^ (0x7500 + k)) % (tmax - tmin) as u64) as i64);
     }
+    v.retain(|u| *u >= tmin && *u <= tmax);
     fin(v)
 }
 
@@ -76,6 +88,17 @@ pub fn pool_ym(seed: u64) -> Vec<i32> {
     for p in [1, 2, 11, 12, 13, 23, 24, 25, 100, 119, 120, 1200, 12 * 9998, 12 * 9999, 1_000_000, (1 << 24) - 1, 1 << 24, (1 << 24) + 1, 1_068_000_000, YM_LIMIT - 12, YM_LIMIT - 1, YM_LIMIT] {
         v.push(p);
         v.push(-p);
+    }
+    for e in [8u32, 15, 16, 30] {
+        for d in [-1i32, 0, 1] {
+            v.push((1i32 << e) + d);
+            v.push(-((1i32 << e) + d));
+        }
+    }
+    // complements to the i32 extremes: sums of two in-range values that land exactly on +/-2^31
+    for c in [11_483_647, 11_483_648, 11_483_649] {
+        v.push(c);
+        v.push(-c);
     }
     for k in 0..4u64 {
         v.push(((splitmix(seed ^ (0x1317 + k)) % (2 * YM_LIMIT as u64 + 1)) as i64 - YM_LIMIT as i64) as i32);
@@ -92,6 +115,21 @@ pub fn pool_dt(seed: u64) -> Vec<i64> {
     ] {
         v.push(p);
         v.push(-p);
+    }
+    // powers of two +/-1 (narrowing casts wrap there)
+    for e in 0..=62u32 {
+        for d in [-1i64, 0, 1] {
+            let x = (1i64 << e) + d;
+            if x > 0 && x <= DT_LIMIT {
+                v.push(x);
+                v.push(-x);
+            }
+        }
+    }
+    // complements to the i64 extremes: sums of two in-range values that land exactly on +/-2^63
+    for c in [583_372_036_854_775_807i64, 583_372_036_854_775_808, 583_372_036_854_775_809] {
+        v.push(c);
+        v.push(-c);
     }
     for k in 0..4u64 {
         v.push(((splitmix(seed ^ (0xD700 + k)) % (2 * DT_LIMIT as u64 + 1)) as i128 - DT_LIMIT as i128) as i64);
